@@ -314,6 +314,22 @@ class RenderMonitor(Monitor):
                     i = int(np.flatnonzero(one)[np.argmax(np.abs(got["phase"][one] - want["phase_one"][one]))])
                     ctx.violation("atom-view", f"atom {q} basis {basis}: phase[{i}]={got['phase'][i]!r}, pulse phase "
                                   f"{want['phase_one'][i]!r}", "atom-phase")
+                # where exactly one pulse drives the atom (non-zero amplitude) the phase is that pulse's, however many
+                # channels address the atom at other times or idle there with zero amplitude
+                solo = want["ndrive"] == 1
+                if np.any(solo):
+                    ctx.count("solo_drive_phase_checks")
+                    if nch > 1:
+                        ctx.count("solo_drive_phase_checks_with_several_channels")
+                    # (all-local view only: in the other view a global and a local entry are separate terms, each
+                    #  with its own phase, and have no common phase to compare)
+                    for view, ph in (("all-local", got["phase"]),):
+                        if not np.allclose(np.asarray(ph)[solo], want["phase_drive"][solo], atol=1e-12, rtol=0):
+                            i = int(np.flatnonzero(solo)[np.argmax(np.abs(np.asarray(ph)[solo] - want["phase_drive"][solo]))])
+                            ctx.violation("atom-view", f"atom {q} basis {basis}: {view} phase[{i}]={np.asarray(ph)[i]!r} while "
+                                          f"the only pulse driving the atom then has phase {want['phase_drive'][i]!r}",
+                                          f"solo-drive-phase:{view}")
+                            break
                 if np.any(one) and not np.allclose(g2["phase"][one], want["phase_one"][one], atol=1e-12, rtol=0):
                     i = int(np.flatnonzero(one)[np.argmax(np.abs(g2["phase"][one] - want["phase_one"][one]))])
                     ctx.violation("global-view", f"atom {q} basis {basis}: global+local phase[{i}]={g2['phase'][i]!r}, pulse "
